@@ -7,7 +7,8 @@
 //! Exit status of `run`/`replay`: 0 = property held on everything explored, 1 = violation
 //! (a line `VIOLATION property=<id> replay=<path>` is printed), 2 = machinery error.
 
-use cvh::props::{self, Unit};
+mod props;
+use props::Unit;
 use cvh::unit::*;
 use cvm::sem::Sw;
 use serde_json::{json, Value};
@@ -405,6 +406,9 @@ fn replay(path: &str) -> i32 {
 }
 
 fn main() {
+    register_runners(vec![
+        cvh_i0::run, cvh_i1::run, cvh_i2::run, cvh_i3::run, cvh_i4::run, cvh_i5::run, cvh_i6::run, cvh_i7::run, cvh_i8::run, cvh_i9::run,
+    ]);
     let args: Vec<String> = std::env::args().skip(1).collect();
     let code = match args.first().map(|s| s.as_str()) {
         Some("worker") => worker(&args[1..]),
